@@ -124,6 +124,22 @@ pub type Sheet = Vec<Rule>;
 // ---------------------------------------------------------------------------------------------
 // serialisation
 
+/// An identifier, sometimes with its first character written as a CSS escape: `\\48 d`, `\\000048d`
+/// (six hex digits end the escape by themselves, even before another hex digit), `\\48\td`.
+pub fn escaped_ident(name: &str, style: u8) -> String {
+    let mut ch = name.chars();
+    let Some(first) = ch.next() else { return String::new() };
+    let rest: String = ch.collect();
+    match style % 8 {
+        5 => format!("\\{:x} {}", first as u32, rest),
+        // (a white-space character right after the digits would belong to the escape, so when
+        // nothing of the name follows, the terminator is written out)
+        6 => format!("\\{:06x}{}{}", first as u32, rest, if rest.is_empty() { " " } else { "" }),
+        7 => format!("\\{:04X}\t{}", first as u32, rest),
+        _ => name.to_string(),
+    }
+}
+
 impl Compound {
     pub fn to_css(&self, style: u8) -> String {
         let mut s = String::new();
@@ -134,11 +150,11 @@ impl Compound {
             match p {
                 Part::Class(c) => {
                     s.push('.');
-                    s.push_str(c);
+                    s.push_str(&escaped_ident(c, style));
                 }
                 Part::Id(i) => {
                     s.push('#');
-                    s.push_str(i);
+                    s.push_str(&escaped_ident(i, style.rotate_left(3)));
                 }
                 Part::Nth(n) => {
                     s.push_str(":nth-child(");
@@ -271,7 +287,7 @@ pub fn sheet_to_css(sheet: &Sheet, v: &Variant) -> String {
         match v.layout {
             0 => "",
             1 => " ",
-            2 => ["\n", "\n  ", " ", "\t"][n % 4],
+            2 => ["\n", "\n  ", " ", "\t", "\x0c", "\r\n", "\r", " \x0c "][n % 8],
             _ => [" /* c */ ", "/**/", " /* a\nb */\n", " ", "/***/", " /* note **/ ", "/****** banner ******/\n", "/* * / */", " /*/*/ "][n % 9],
         }
     };
